@@ -41,6 +41,25 @@ def rand_quat(r: random.Random, kind: str):
         return [0.0, 0.0, 0.0, 1.0]
     if kind == "uniform":
         return q_normalize([r.gauss(0, 1) for _ in range(4)])
+    if kind == "r22_atol":
+        # R22 = cos(angle) for a rotation about an axis in the xy-plane: within 1e-7 of mat2SO3's mask threshold atol = 1e-5,
+        # on either side, or exactly at it
+        ang = math.acos(1e-5 + r.choice([0.0, 1e-7, -1e-7, 1e-9, -1e-9, 2e-5, -2e-5]))
+        ph = r.uniform(0, 2 * math.pi)
+        s_, c_ = math.sin(ang / 2), math.cos(ang / 2)
+        return [math.cos(ph) * s_, math.sin(ph) * s_, 0.0, c_]
+    if kind == "diag_tie":
+        # R00 == R11 (rotation about z, optionally followed by a half turn about x so that R22 < atol): the strict / non-strict
+        # comparisons between the diagonal entries decide the branch
+        ang = r.choice([0.3, 1.0, math.pi / 2, 2.5, math.pi - 1e-6])
+        qz = [0.0, 0.0, math.sin(ang / 2), math.cos(ang / 2)]
+        if r.random() < 0.5:
+            return qz
+        # qx(pi) * qz
+        x1, y1, z1, w1 = 1.0, 0.0, 0.0, 0.0
+        x2, y2, z2, w2 = qz
+        return [w1 * x2 + x1 * w2 + y1 * z2 - z1 * y2, w1 * y2 - x1 * z2 + y1 * w2 + z1 * x2, w1 * z2 + x1 * y2 - y1 * x2 + z1 * w2,
+                w1 * w2 - x1 * x2 - y1 * y2 - z1 * z2]
     d = q_normalize([r.gauss(0, 1) for _ in range(3)] + [0.0])[:3]
     if kind == "axis180":
         a = [0.0, 0.0, 0.0]
@@ -56,7 +75,7 @@ def rand_quat(r: random.Random, kind: str):
     return q
 
 
-QUAT_KINDS = ["uniform", "uniform", "uniform", "mid", "small", "pi", "axis180", "nearpi", "identity"]
+QUAT_KINDS = ["uniform", "uniform", "uniform", "mid", "small", "pi", "axis180", "nearpi", "identity", "r22_atol", "diag_tie"]
 
 
 def gen_cloud(r: random.Random, N: int, kind: str, extent: float, rotate: bool, offset: float):
